@@ -57,17 +57,20 @@ func (w *wrapper) Invoke(ctx context.Context, method string, args any, reply any
 		return ErrMethodNotFound
 	}
 
+	if err := ctx.Err(); err != nil {
+		return err // like a real connection: no call on a context that has already ended
+	}
 	ctx, clientServerStream, ss, cs := w.startStream(ctx, method)
 	go func() {
 		res, err := matched.Handler(w.srv, ctx, func(dst any) error {
 			return ss.RecvMsg(dst)
 		}, nil)
 		if err != nil {
-			clientServerStream.Close(err)
+			clientServerStream.Close(endOfCall(ctx, err))
 			return
 		}
 		err = ss.SendMsg(res)
-		clientServerStream.Close(err)
+		clientServerStream.Close(endOfCall(ctx, err))
 	}()
 
 	if err := cs.SendMsg(args); err != nil {
@@ -101,13 +104,26 @@ func (w *wrapper) NewStream(ctx context.Context, desc *grpc.StreamDesc, method s
 		return nil, ErrMethodShape
 	}
 
+	if err := ctx.Err(); err != nil {
+		return nil, err // like a real connection: no call on a context that has already ended
+	}
 	ctx, clientServerStream, ss, cs := w.startStream(ctx, method)
 	go func() {
 		err := matched.Handler(w.srv, ss)
-		clientServerStream.Close(err)
+		clientServerStream.Close(endOfCall(ctx, err))
 	}()
 
 	return cs, nil
+}
+
+// endOfCall is what the client is told when the handler has returned err.
+// Once the client has ended the call itself (cancel, deadline) that is the outcome, as over a real connection,
+// whatever the handler returns afterwards.
+func endOfCall(ctx context.Context, err error) error {
+	if ctxErr := ctx.Err(); ctxErr != nil {
+		return ctxErr
+	}
+	return err
 }
 
 func (w *wrapper) startStream(ctx context.Context, method string) (context.Context, *ClientServerStream, grpc.ServerStream, grpc.ClientStream) {
